@@ -116,22 +116,48 @@ func runC14(c *Ctx) {
 				continue
 			}
 			obj := call.Common().Args[1]
-			fromBuild := SliceHas(obj, MCall("ingressController.buildCanaryIngress"))
-			fromCanaryGet := false
-			// the object is the out-argument of a Get whose key name derives from the canary name
-			for _, g := range AllCalls(fn) {
-				if !strings.HasSuffix(CalleeName(g.Common()), "client.Reader.Get") || len(g.Common().Args) < 3 {
-					continue
+			var isCanaryObj func(f *ssa.Function, v ssa.Value, depth int) bool
+			isCanaryObj = func(f *ssa.Function, v ssa.Value, depth int) bool {
+				if SliceHas(v, MCall("ingressController.buildCanaryIngress")) {
+					return true
 				}
-				if !sameObject(g.Common().Args[2], obj) {
-					continue
+				// the object is the out-argument of a Get whose key name derives from the canary name
+				for _, g := range AllCalls(f) {
+					if !strings.HasSuffix(CalleeName(g.Common()), "client.Reader.Get") || len(g.Common().Args) < 3 {
+						continue
+					}
+					if !sameObject(g.Common().Args[2], v) {
+						continue
+					}
+					if SliceHas(g.Common().Args[1], func(t *Term) bool {
+						return (t.Op == "field" && t.Name == "canaryIngressName") || (t.Op == "call" && NameMatch(t.Name, "ingress.defaultCanaryIngressName"))
+					}) {
+						return true
+					}
 				}
-				if SliceHas(g.Common().Args[1], func(t *Term) bool {
-					return (t.Op == "field" && t.Name == "canaryIngressName") || (t.Op == "call" && NameMatch(t.Name, "ingress.defaultCanaryIngressName"))
-				}) {
-					fromCanaryGet = true
+				// the object is handed in by the callers: every caller must pass the canary Ingress
+				if depth < 2 {
+					root := rootOfObject(Forwarded(v))
+					for i, q := range f.Params {
+						if ssa.Value(q) != root {
+							continue
+						}
+						cs := p.Callers(f)
+						if len(cs) == 0 {
+							return false
+						}
+						for _, site := range cs {
+							if site.Kind == "closure" || i >= len(site.Args) || !isCanaryObj(site.Caller, site.Args[i], depth+1) {
+								return false
+							}
+						}
+						return true
+					}
 				}
+				return false
 			}
+			fromBuild := isCanaryObj(fn, obj, 0)
+			fromCanaryGet := false
 			ok := fromBuild || fromCanaryGet
 			rule := "R14.3"
 			c.Ob(rule, FuncName(fn)+"#"+kind, call.Pos(), ok, kind+" targets the canary Ingress", ifs(!ok, "the written object is neither built by buildCanaryIngress nor fetched under the canary Ingress name: the stable Ingress may be modified"))
